@@ -98,6 +98,10 @@ fn gen(rng: &mut Rng, n: usize, tier: &str) -> Vec<Req> {
     for sc in sr::overlay_member_cells() {
         emit_resolve(&mut out, rng, &sc, "overlaymember");
     }
+    // two conflicted member events of one sender and target with different selections (deterministic cells)
+    for sc in sr::same_sender_member_cells() {
+        emit_resolve(&mut out, rng, &sc, "samesender");
+    }
     // exhaustive: all labelled DAGs on <= 4 (quick) / <= 5 (thorough) nodes x all 3^n key assignments
     let max_n = if thorough { 5 } else { 4 };
     for nn in 1..=max_n {
